@@ -184,7 +184,7 @@ def run(ctx):
             if list(ans[1]) != labels:
                 bad = [(a, b) for a, b in zip(ans[1], labels) if a != b][:2]
                 res.violation("the label text of a node differs from the model (html_table_label)", case,
-                              impl=[b for _, b in bad] or len(labels), model=[a for a, _ in bad] or len(ans[1]), clause="model tie: labels")
+                              impl=[b for _, b in bad] or len(labels), model=[a for a, _ in bad] or len(ans[1]), clause="model tie: labels", tie_only=True)
 
         tbl = sorted({n: table_spelling(n) for n in chain_names(cd)}.items())
         batch.add(["graph_labels", start, [[k, v] for k, v in tbl if v is not None], chain_wire_lbl(cd)], on_labels)
